@@ -58,7 +58,7 @@ type Stats struct {
 	Paths, AssumeFails, Aborts, EscapedPanics int
 	Obligations, ObligationsHeld             int
 	FlipSat, FlipUnsat, FlipUnknown          int
-	CacheHits, CoreHits                      int
+	CacheHits, CoreHits, LemmaFallbacks      int
 	ObligTime, FlipTime, RunTime             time.Duration
 	Divergences                              int
 	Decisions                                int64
@@ -72,7 +72,8 @@ type Explorer struct {
 	P      *Program
 	M      *Machine
 	Ctx    *sym.Ctx
-	S      *sym.Solver
+	S      *sym.Solver // branch flips (assumption literals, unsat cores)
+	SO     *sym.Solver // obligations (push/pop: nothing of an obligation outlives its query)
 	Inst   *Instance
 	Stats  Stats
 	Viol   []Violation
@@ -107,6 +108,7 @@ func NewExplorer(p *Program, s *sym.Solver) *Explorer {
 	registerHarness(m)
 	registerOracle(m)
 	registerFrame(m)
+	registerOracleScalars(m)
 	return &Explorer{P: p, M: m, S: s, MaxPaths: 200000, MaxViol: 3, SampleKeep: 3}
 }
 
@@ -227,6 +229,9 @@ func (e *Explorer) Explore(inst *Instance) {
 	e.Inst = inst
 	e.Ctx = sym.NewCtx()
 	e.S.Rebind(e.Ctx)
+	if e.SO != nil {
+		e.SO.Rebind(e.Ctx)
+	}
 	e.Stats = Stats{AbortReasons: map[string]int{}}
 	e.Viol = nil
 	e.models = nil
@@ -414,12 +419,41 @@ func (e *Explorer) checkObligations(rep *PathReport, lits []*sym.Term, bound int
 			e.addViolation(rep, ob, rep.Model, true)
 			continue
 		}
+		if len(ob.Lemmas) > 0 {
+			// prove the substituted equalities first (structure-determined values)
+			conj := e.Ctx.And(ob.Lemmas...)
+			ok := conj.IsTrue()
+			if !ok && !conj.IsFalse() {
+				res, _ := e.S.CheckAssuming(append(append([]*sym.Term(nil), lits[:ob.PCLen]...), e.Ctx.Not(conj)), false)
+				ok = res == sym.Unsat
+			}
+			if !ok {
+				if ob.Fallback == nil {
+					e.incomplete("lemma of obligation " + ob.Label + " not provable and no fallback")
+					continue
+				}
+				ob.T = ob.Fallback()
+				e.Stats.LemmaFallbacks++
+			}
+		}
 		if ob.T == nil || ob.T.IsTrue() {
 			e.Stats.ObligationsHeld++
 			continue
 		}
+		if ob.T.IsFalse() {
+			// violated for every input of this path: any model of the prefix is a witness
+			e.addViolation(rep, ob, rep.Model, true)
+			continue
+		}
 		tq := time.Now()
-		res, model := e.S.CheckAssuming(append(append([]*sym.Term(nil), lits[:ob.PCLen]...), e.Ctx.Not(ob.T)), true)
+		var res sym.Result
+		var model sym.Model
+		if e.SO != nil {
+			e.SO.SetPrefix(lits[:ob.PCLen])
+			res, model = e.SO.CheckWith(true, e.Ctx.Not(ob.T))
+		} else {
+			res, model = e.S.CheckAssuming(append(append([]*sym.Term(nil), lits[:ob.PCLen]...), e.Ctx.Not(ob.T)), true)
+		}
 		e.Stats.ObligTime += time.Since(tq)
 		switch res {
 		case sym.Unsat:
